@@ -13,6 +13,7 @@ import (
 	"os"
 	"path"
 	"path/filepath"
+	"sort"
 	"strings"
 	"sync"
 	"time"
@@ -41,6 +42,9 @@ type input struct {
 	// extra meta-only blocks of other streams
 	OldMarked    int  `json:"old_marked"`    // deletion mark older than the delete delay: the cleaner deletes them
 	RecentMarked int  `json:"recent_marked"` // deletion mark younger than delay/2: stay in the view
+	MidMarked    int  `json:"mid_marked,omitempty"` // mark older than delay/2 but younger than the delete delay: hidden, not deleted
+	DupRecentMarked bool `json:"dup_recent_marked,omitempty"` // the first duplicate already carries a recent mark
+	BadMarkVersion int `json:"bad_mark_version,omitempty"` // 1: a deletion mark, 2: a no-compact mark with version 9 (the sync fails by itself)
 	Duplicates   int  `json:"duplicates"`    // blocks whose sources are covered: garbage collection marks them
 	NoCompact    int  `json:"no_compact"`    // carry a no-compact mark
 	Partial      int  `json:"partial"`       // directories without meta.json
@@ -119,6 +123,131 @@ func facts(repo string, w io.Writer) error {
 	fmt.Fprintln(w, "(* compact.go: groups are sent to groupChan only after `if err := c.sy.SyncMetas(ctx); err != nil { return ... }` *)")
 	fmt.Fprintf(w, "Definition Compact_groupChan_fed_after_sync : bool := %v.\n", sends > 0 && syncIfPos >= 0 && firstSendPos > syncIfPos)
 
+	// the error-return lines between a failing read and SyncMetas
+	fs, err := common.ParseSrc(repo, "pkg/block/fetcher.go")
+	if err != nil {
+		return err
+	}
+	for _, f := range []struct{ fn, name string }{
+		{"BaseFetcher.fetch", "fetch_events"},
+		{"BaseFetcher.fetchMetadata", "fetchMetadata_events"},
+		{"BaseFetcher.loadMeta", "loadMeta_events"},
+		{"IgnoreDeletionMarkFilter.Filter", "delmark_filter_events"},
+	} {
+		evs, err := fs.CallOrder(f.fn)
+		if err != nil {
+			return err
+		}
+		fmt.Fprintf(w, "(* pkg/block/fetcher.go: %s *)\n", f.fn)
+		fmt.Fprint(w, common.EventsCoq(f.name, evs))
+	}
+	evs, err = s.CallOrder("GatherNoCompactionMarkFilter.Filter")
+	if err != nil {
+		return err
+	}
+	fmt.Fprintln(w, "(* pkg/compact/compact.go: GatherNoCompactionMarkFilter.Filter *)")
+	fmt.Fprint(w, common.EventsCoq("nocompact_filter_events", evs))
+	ms, err := common.ParseSrc(repo, "pkg/block/metadata/markers.go")
+	if err != nil {
+		return err
+	}
+	evs, err = ms.CallOrder("ReadMarker")
+	if err != nil {
+		return err
+	}
+	fmt.Fprintln(w, "(* pkg/block/metadata/markers.go: ReadMarker *)")
+	fmt.Fprint(w, common.EventsCoq("ReadMarker_events", evs))
+	// a marker read error other than not-found / unmarshal is remembered (lastErr = err) and returned
+	remembers := func(sf *common.SrcFile, fn string) (bool, error) {
+		fd, err := sf.FindFunc(fn)
+		if err != nil {
+			return false, err
+		}
+		ok := false
+		ast.Inspect(fd.Body, func(n ast.Node) bool {
+			is, isIf := n.(*ast.IfStmt)
+			if !isIf || is.Init == nil || !strings.Contains(sf.ExprString(is.Init.(*ast.AssignStmt).Rhs[0]), "metadata.ReadMarker(") || sf.ExprString(is.Cond) != "err != nil" {
+				return true
+			}
+			// body: if cause == NotFound {continue}; if cause == Unmarshal {...; continue}; lastErr = err; continue
+			var assigns, conts int
+			notFound, unmarshal := false, false
+			for _, st := range is.Body.List {
+				switch x := st.(type) {
+				case *ast.IfStmt:
+					c := sf.ExprString(x.Cond)
+					if strings.HasSuffix(cu.BodyKinds(x.Body), "continue") {
+						if strings.Contains(c, "ErrorMarkerNotFound") {
+							notFound = true
+						}
+						if strings.Contains(c, "ErrorUnmarshalMarker") {
+							unmarshal = true
+						}
+					}
+				case *ast.AssignStmt:
+					if len(x.Lhs) == 1 && sf.ExprString(x.Lhs[0]) == "lastErr" && sf.ExprString(x.Rhs[0]) == "err" {
+						assigns++
+					}
+				case *ast.BranchStmt:
+					conts++
+				}
+			}
+			nIfs := 0
+			for _, st := range is.Body.List {
+				if _, isIf := st.(*ast.IfStmt); isIf {
+					nIfs++
+				}
+			}
+			ok = notFound && unmarshal && nIfs == 2 && assigns == 1
+			return false
+		})
+		return ok, nil
+	}
+	r1, err := remembers(fs, "IgnoreDeletionMarkFilter.Filter")
+	if err != nil {
+		return err
+	}
+	r2, err := remembers(s, "GatherNoCompactionMarkFilter.Filter")
+	if err != nil {
+		return err
+	}
+	fmt.Fprintln(w, "(* both marker filters: only not-found and unmarshal errors of ReadMarker are skipped; any other error is kept in lastErr *)")
+	fmt.Fprintf(w, "Definition delmark_filter_remembers_error : bool := %v.\nDefinition nocompact_filter_remembers_error : bool := %v.\n", r1, r2)
+	// fetchMetadata: the `default:` arm of `switch errors.Cause(err)` adds to resp.metaErrs
+	fm, err := fs.FindFunc("BaseFetcher.fetchMetadata")
+	if err != nil {
+		return err
+	}
+	defaultAdds, namedCases := false, 0
+	ast.Inspect(fm.Body, func(n ast.Node) bool {
+		sw, isSw := n.(*ast.SwitchStmt)
+		if !isSw || !strings.Contains(fs.ExprString(sw.Tag), "errors.Cause(err)") {
+			return true
+		}
+		for _, cc := range sw.Body.List {
+			cl := cc.(*ast.CaseClause)
+			if cl.List == nil {
+				for _, st := range cl.Body {
+					if strings.Contains(nodeText(fs, st), "resp.metaErrs.Add(err)") {
+						defaultAdds = true
+					}
+				}
+			} else {
+				for _, e := range cl.List {
+					t := fs.ExprString(e)
+					if t == "ErrorSyncMetaNotFound" || t == "ErrorSyncMetaCorrupted" {
+						namedCases++
+					} else {
+						namedCases = -100
+					}
+				}
+			}
+		}
+		return false
+	})
+	fmt.Fprintln(w, "(* fetchMetadata: only ErrorSyncMetaNotFound / ErrorSyncMetaCorrupted make a block partial; every other loadMeta error goes to resp.metaErrs *)")
+	fmt.Fprintf(w, "Definition fetchMetadata_other_errors_incomplete : bool := %v.\n", defaultAdds && namedCases == 2)
+
 	// cmd/thanos/compact.go is package main: source facts only
 	m, err := common.ParseSrc(repo, "cmd/thanos/compact.go")
 	if err != nil {
@@ -153,6 +282,19 @@ func facts(repo string, w io.Writer) error {
 	fmt.Fprintln(w, "(* cmd/thanos/compact.go: the closure compactMainFn of runCompact (one compactor iteration) *)")
 	fmt.Fprint(w, common.EventsCoq("compactMainFn_events", evs))
 	return nil
+}
+
+func nodeText(s *common.SrcFile, n ast.Node) string {
+	var sb strings.Builder
+	ast.Inspect(n, func(m ast.Node) bool {
+		if e, ok := m.(ast.Expr); ok {
+			sb.WriteString(s.ExprString(e))
+			sb.WriteString(" ")
+			return false
+		}
+		return true
+	})
+	return sb.String()
 }
 
 // ---- scenario construction --------------------------------------------------------
@@ -744,7 +886,12 @@ func gen(r *rand.Rand, tier string, n int) []any {
 		in.Partial = r.Intn(2)
 		in.CorruptMeta = r.Intn(2)
 		in.CorruptMark = r.Intn(3)
-		in.BadVersion = r.Intn(10) == 0
+		in.BadVersion = r.Intn(12) == 0
+		in.MidMarked = r.Intn(2)
+		in.DupRecentMarked = r.Intn(3) == 0
+		if r.Intn(12) == 0 {
+			in.BadMarkVersion = 1 + r.Intn(2)
+		}
 		if in.Lister == "concurrent" && r.Intn(3) == 0 {
 			in.StressBlocks = 100 + r.Intn(200)
 		}
